@@ -221,7 +221,7 @@ def known_region(types, tree):
     """Known finding whose region the tree lies in (None if none)."""
     for n in ex.tree_nodes(tree):
         if n['op'] in ('rscal', 'div') and n['a'].get('fk') == 'func' and \
-                n.get('how') == 'op' and \
+                n.get('how') in ('op', 'matmul') and \
                 ex.tinfo(types, n['dom']).cat == 'field' and \
                 ex.scalar_value(n['s']) == 0:
             return 'C04-K3'
@@ -617,9 +617,17 @@ def run_case(desc):
         node = b.node
         if node['op'] == 'leaf':
             strata.append('leaf:' + node['kind'])
+            if not b.obj._call_has_out and \
+                    env.info(node['ran']).cat != 'field':
+                strata.append('leaf-oop-only')
             if not ex.leaf_is_linear(node):
                 nonlin_leaf = True
             continue
+        if node['op'] == 'sum' and node['dom'] == node['ran'] and \
+                node.get('how') != 'ctor_tmp' and ran_is_space:
+            for pos, k in zip(('left', 'right'), b.kids):
+                if not k.obj._call_has_out:
+                    strata.append('sum-oop-only:' + pos)
         strata.append('ctor:{}:{}'.format(node['op'], node.get('how', 'op')))
         for k in b.kids:
             if k.node['op'] != 'leaf':
@@ -671,7 +679,9 @@ REQUIRED_STRATA = [
     'space:discr', 'dtype:float32', 'weighting:array', 'weighting:const',
     'fk:func', 'inplace', 'linearity-checked', 'alias-inplace',
     'alias-inplace:v*f', 'alias-inplace:lscal(v*f)',
-    'alias-inplace:addvec(v*f)',
+    'alias-inplace:addvec(v*f)', 'leaf-oop-only', 'sum-oop-only:left',
+    'sum-oop-only:right', 'ctor:lscal:rmatmul', 'ctor:rscal:matmul',
+    'ctor:rvec:matmul', 'ctor:lvec:rmatmul', 'ctor:flvec:rmatmul',
     'nest:OperatorComp<OperatorRightScalarMult',
     'nest:OperatorRightVectorMult<OperatorRightScalarMult',
     'nest:OperatorSum<OperatorComp', 'nest:OperatorLeftScalarMult<OperatorSum',
